@@ -68,6 +68,61 @@ func RunC09(e *core.Env) int {
 		plan = append(plan, scen.GenScoping(core.Rand(e.Seed, "c09-joint", i), ""))
 		labels = append(labels, "joint")
 	}
+	// fixed part: a generated method used as a :conv target is judged by ITS OWN effective style (a
+	// method-level :style overrides the interface default for that method only), whichever of the two
+	// methods sorts first
+	{
+		var ss []*scen.Scenario
+		type exp struct{ accept bool }
+		var exps []exp
+		for _, ifaceArg := range []bool{true, false} {
+			for _, names := range [][2]string{{"AOuter", "ZGen"}, {"ZOuter", "AGen"}} {
+				id := fmt.Sprintf("kc09conv%v%s", ifaceArg, strings.ToLower(names[0][:1]))
+				b := scen.NewBuilder(nil, scen.Profile{}, id, id)
+				b.Struct("", "SI", "V int")
+				b.Struct("", "DI", "V int")
+				b.Struct("", "A", "X int", "In SI")
+				b.Struct("", "B", "X int", "In DI")
+				gen := &scen.Method{Name: names[1], Src: scen.Param{Type: "SI"}, Dst: scen.Param{Type: "DI"}}
+				outer := &scen.Method{Name: names[0], Src: scen.Param{Type: "*A"}, Dst: scen.Param{Type: "*B"}, Notations: []scen.Notation{scen.N("conv", names[1], "In", "In")}}
+				it := &scen.Iface{Name: "Convergen", Converter: true, Methods: []*scen.Method{outer, gen}}
+				if ifaceArg {
+					// interface says arg, the converter method says return: it IS usable as a converter
+					it.Notations = []scen.Notation{scen.N("style", "arg")}
+					gen.Notations = []scen.Notation{scen.N("style", "return")}
+				} else {
+					// interface default (return), the converter method says arg: it is NOT usable
+					gen.Notations = []scen.Notation{scen.N("style", "arg")}
+				}
+				b.S.Ifaces = append(b.S.Ifaces, it)
+				b.S.RegFuncs = append(b.S.RegFuncs, names[1])
+				sc := b.Finish()
+				sc.InConv = ifaceArg
+				ss = append(ss, sc)
+				exps = append(exps, exp{ifaceArg})
+			}
+		}
+		if cb, err := NewBatch(e, "conv-style", ss); err == nil {
+			cb.RunTool(e, true)
+			for i, c := range cb.Cases {
+				rep.Eval(1)
+				got := c.Run.Exit == 0 && len(c.TypeErrs) == 0 && c.Out != nil
+				feat := map[string]string{"iface_style_arg": fmt.Sprint(exps[i].accept), "referrer_sorts_first": fmt.Sprint(strings.HasPrefix(c.S.ID[len(c.S.ID)-1:], "a"))}
+				switch {
+				case c.Run.Crashed() || c.Run.TimedOut:
+					rep.Inconclusive("conv-style corpus: " + c.S.ID)
+				case exps[i].accept && !got:
+					rep.Violate(&core.Violation{Property: "C09", Monitor: "conv-style", Symptom: "converter-method-judged-by-interface-style", Features: feat, Case: c.S.ID,
+						Detail: fmt.Sprintf("the converter method overrides the interface's :style arg with :style return, so it can serve as a :conv target; exit %d, type errors %v, stderr: %s", c.Run.Exit, c.TypeErrs, core.Trunc(c.Run.Stderr, 300)), Files: c.ReplayFiles()})
+				case !exps[i].accept && c.Run.Exit == 0:
+					rep.Violate(&core.Violation{Property: "C09", Monitor: "conv-style", Symptom: "converter-method-judged-by-interface-style", Features: feat, Case: c.S.ID,
+						Detail: fmt.Sprintf("the converter method says :style arg at method level and cannot serve as a :conv target, yet the file was accepted; type errors of the output: %v", c.TypeErrs), Files: c.ReplayFiles()})
+				default:
+					rep.Distinct("conv-style|" + c.S.ID)
+				}
+			}
+		}
+	}
 	const perBatch = 40
 	for start, bi := 0, 0; start < len(plan); start, bi = start+perBatch, bi+1 {
 		end := start + perBatch
@@ -179,6 +234,28 @@ func RunC09(e *core.Env) int {
 				if eff != d || (is != "unset" && ms != "unset" && is != ms) {
 					rep.Distinct(fmt.Sprintf("%s|iface=%s|method=%s", k, is, ms))
 				}
+			}
+		}
+		// R2 for whole files: a file is refused only if one of its methods is refused when it stands alone
+		byFull := map[*CaseResult][]*probe{}
+		for _, p := range probes {
+			byFull[p.full] = append(byFull[p.full], p)
+		}
+		for full, ps := range byFull {
+			if full.Run.Exit == 0 || full.Run.TimedOut {
+				continue
+			}
+			culprit := false
+			for _, p := range ps {
+				if p.del.Run.Exit != 0 {
+					culprit = true
+				}
+			}
+			if !culprit {
+				rep.Violate(&core.Violation{Property: "C09", Monitor: "R2", Symptom: "file-refused-although-every-method-alone-is-accepted", Case: full.S.ID,
+					Detail: fmt.Sprintf("the file with %d method(s) exits %d (%s) but each of its methods, alone under its interface, is accepted", len(ps), full.Run.Exit, core.Trunc(full.Run.Stderr, 300)), Files: full.ReplayFiles()})
+			} else {
+				rep.Count("full_files_refused_with_a_culprit_method", 1)
 			}
 		}
 		if len(probes) > 0 {
